@@ -71,6 +71,8 @@ func (p *C09) Prepare(env *Env, tier string, seed uint64) error {
 	p.enumFlags(seed)
 	// the same command on n and 4n repetitions of a unit: growth of the logical clock
 	p.growthCases(seed, tier)
+	// a flag at its empty/zero default against the same command without it
+	p.zeroDefaultCases(seed)
 	// every structurally unusual (but valid or nearly valid) YAML document with every write command
 	for _, raw := range yamlShapes {
 		for _, cmd := range [][]string{{"write"}, {"write", "event"}, {"write", "parse"}, {"write", "conv", "-c", "cmt"}} {
@@ -478,6 +480,32 @@ func (p *C09) genDictUse(r *model.Rand) (Base, string) {
 	if r.Chance(1, 4) {
 		return p.genAttrUse(r), ""
 	}
+	if r.Chance(1, 8) {
+		// very many faulty entries at once (the diagnostic has hundreds of lines;
+		// whatever is derived from their number must still mean "failed")
+		n := model.Pick(r, []int{64, 128, 128, 256, 256, 512})
+		var sb strings.Builder
+		for i := 0; i < n; i++ {
+			switch r.Intn(3) {
+			case 0:
+				fmt.Fprintf(&sb, "- name: Bad%d\n  meta:\n    display: bad%d\n  attributes:\n    - NoSuchAttribute\n", i, i)
+			case 1:
+				fmt.Fprintf(&sb, "- name: Bad%d\n  meta:\n    display: bad%d\n  extends: NoSuchChord\n", i, i)
+			default:
+				fmt.Fprintf(&sb, "- name: Bad%d\n  meta:\n    display: bad%d\n  extends: Bad%d\n", i, i, i)
+			}
+		}
+		var b Base
+		if r.Chance(1, 3) {
+			b = Base{Argv: []string{"info", "chord", "describe", "-t", "Cbad0"}, Class: "info"}
+		} else {
+			cmd := model.Pick(r, [][]string{{"write"}, {"write", "event"}, {"write", "parse"}})
+			b = Base{Argv: append([]string{}, cmd...), Input: []byte(goodInst), InputArg: true, Class: "doc"}
+		}
+		b.Files = map[string]*simrt.FileSpec{"/sim/manybad.yml": {Data: []byte(sb.String())}}
+		b.Argv = append(b.Argv, "--chord", "/sim/manybad.yml")
+		return b, "bad0"
+	}
 	if r.Chance(1, 5) {
 		// a long, loop-free extends chain that is actually used
 		depth := model.Pick(r, []int{20, 33, 47, 60, 200})
@@ -642,7 +670,7 @@ func (p *C09) genNonsense(r *model.Rand) (*nonsense, []string) {
 	case 2:
 		return mk("zero-denominator", "text", 0, textStep(mode, "", pre+head+"["+model.Pick(r, []string{"1/0", "3/00", "1,2/0"})+"]"+post, seed))
 	case 3:
-		return mk("zero-denominator", "yaml", 0, writeStep(wcmd, yamlPre+"- values:\n    - \""+model.Pick(r, []string{"1/0", "0/0"})+"\"\n"+goodInst+yamlPost, seed))
+		return mk("zero-denominator", "yaml", 0, writeStep(wcmd, yamlPre+"- values:\n    - \""+model.Pick(r, []string{"1/0", "0/0", "1/00", "1/2/0", "1/0/2", "3/0 ", "1/0x", "2/0/0"})+"\"\n"+goodInst+yamlPost, seed))
 	case 4:
 		return mk("no-durations", "yaml", 0, writeStep(wcmd, yamlPre+model.Pick(r, []string{"- chord:\n    degree: \"1\"\n    name: \"\"\n  values: []\n", "- chord:\n    degree: \"1\"\n    name: \"m\"\n", "- values: []\n", "- bpm: 120\n"})+yamlPost, seed))
 	case 5:
@@ -906,6 +934,15 @@ func (p *C09) Generate(seed uint64, run int) *Case {
 	if r.Chance(1, 10) {
 		st.Argv = append([]string{"--debug"}, st.Argv...)
 	}
+	if st.Stdin != nil && readErrAt < 0 && r.Chance(1, 12) {
+		// standard input is a regular file whose beginning somebody else has
+		// already consumed: fstat reports more bytes than will ever arrive
+		hdr := []byte("# a header line that another reader has already consumed\n")
+		st.Stdin.Data = append(hdr, st.Stdin.Data...)
+		st.Stdin.Kind = "file"
+		st.Stdin.Offset = len(hdr)
+		c.Labels = append(c.Labels, "input:redirect-offset")
+	}
 	if r.Chance(1, 10) {
 		// the destination of the result fills up (or breaks) after some bytes
 		wp := &simrt.WritePlan{ErrNo: model.Pick(r, []string{"ENOSPC", "ENOSPC", "EIO"}), ErrAfter: model.Pick(r, []int{0, 0, 1, 7, 64, 300, 4096, 65536})}
@@ -1135,6 +1172,9 @@ func (p *C09) Evaluate(env *Env, c *Case) (*Outcome, error) {
 	if c.Kind == "growth" {
 		out.Findings = append(out.Findings, growthFindings(c, out)...)
 	}
+	if c.Kind == "zerodefault" {
+		out.Findings = append(out.Findings, zeroDefaultFindings(c, out)...)
+	}
 	if c.Kind == "nonsense" {
 		class, carrier := c.Params["class"], c.Params["carrier"]
 		mf := 0
@@ -1216,8 +1256,8 @@ func (p *C09) Shrinks(c *Case) []*Case {
 			out = append(out, d)
 		}
 	}
-	if c.Kind == "growth" {
-		// judged by the relation between its two inputs: not shrunk further
+	if c.Kind == "growth" || c.Kind == "zerodefault" {
+		// judged by the relation between its two steps: not shrunk further
 		return out
 	}
 	if c.Kind != "nonsense" {
